@@ -177,6 +177,12 @@ func checkConstRender(c *core.Ctx, l *core.Ledger) {
 				}
 			}
 		})
+		// or by the library formatter applied to the value itself
+		core.Instrs(f, func(in ssa.Instruction) {
+			if call, isCall := in.(*ssa.Call); isCall && core.IsCallTo(call, "strconv", "FormatBool") && len(call.Call.Args) == 1 && core.Sym(call.Call.Args[0]) == "$1" {
+				ok = true
+			}
+		})
 		l.Check(ok, "CONST-RENDER", "gen.constantBool", c.Rel(f.Pos()), "true renders as true and false as false", "boolean constants are not rendered as their own value")
 	}
 	l.Floor("CONST-RENDER", 4)
